@@ -295,6 +295,15 @@ def rule_NON(FA):
                              and x[2] and contains(x[2][0], SELF)]
                     if calls:
                         skipped = (line, show(calls[0])[:60])
+        # an overwrite can turn a one into a zero as well as a zero into a one: the cached count moves both ways
+        ctr = ('field', SELF, 'n_ones')
+        incs = [w for w in ws if w[2][:2] == ('bin', 'Add') and ctr in (w[2][2], w[2][3])]
+        decs = [w for w in ws if w[2][:2] == ('bin', 'Sub') and w[2][2] == ctr]
+        if dep and len(incs) + len(decs) == len(ws) and bool(incs) != bool(decs):
+            out.append(Inst('R-NON', key + '|both directions', 'violation', ws[0][3],
+                            '%s overwrites existing bits but only ever %s the cached count of ones (`%s`): %s leaves the count wrong' % (
+                                f['name'], 'increases' if incs else 'decreases', show(ws[0][2])[:60],
+                                'clearing a bit that was set' if incs else 'setting a bit that was clear'), props, sample={'updates': [show(w[2])[:100] for w in ws]}))
         if dep and skipped:
             out.append(Inst('R-NON', key, 'violation', skipped[0],
                             '%s overwrites bits on every path but compensates the cached count of ones only when `%s` answers Some: when that accessor rejects a range this function accepts, the overwritten ones stay counted' % (
@@ -479,8 +488,12 @@ def rule_MSK(FA):
         w = bit_width(v)
         planes.append(show(v))
         key = 'R-MSK|qvector::DataLine::set_symbol|%d' % len(planes)
+        opaque = has_unknown(v) or any(isinstance(st, tuple) and st[:1] in (('call',), ('agg',), ('index',)) for st in subterms(v))
         if w <= 1:
             out.append(Inst('R-MSK', key, 'ok', line, 'value OR-ed into a bit plane is one bit wide: %s' % show(v), props, sample={'value': show(val)}))
+        elif opaque:
+            # the value comes out of a call / an iteration the width analysis does not open: no contradiction shown
+            out.append(Inst('R-MSK', key, 'note', line, 'width of the value OR-ed into a bit plane not decided (`%s`)' % show(v)[:80], props, nontrivial=False))
         else:
             out.append(Inst('R-MSK', key, 'violation', line,
                             'value OR-ed into a bit plane can be up to %d bits wide (`%s`): bits above the two least significant ones of the pushed symbol leak into neighbouring positions' % (w, show(v)), props,
@@ -521,8 +534,10 @@ def rule_MSK(FA):
                 pos = strip_casts(pos)
                 want = norm(('bin', 'BitAnd', ('bin', 'Shr', ('field', SELF, ctr), ('const', shift if shift is not None else 1)), ('const', 255)))
                 ok_pos = pos == want
-                out.append(Inst('R-MSK', 'R-MSK|QVectorBuilder::push position', 'ok' if ok_pos else 'violation', t['line'],
-                                'in-line position is `%s`' % show(pos), props))
+                opaque_pos = has_unknown(pos) or any(isinstance(st, tuple) and st[:1] in (('call',), ('agg',), ('index',)) for st in subterms(pos))
+                out.append(Inst('R-MSK', 'R-MSK|QVectorBuilder::push position', 'ok' if ok_pos else ('note' if opaque_pos else 'violation'), t['line'],
+                                'in-line position is `%s`%s' % (show(pos), '' if ok_pos or not opaque_pos else ' (computed by code the rule does not open: not decided)'), props,
+                                nontrivial=ok_pos or not opaque_pos))
         # extend pushes every element converted with as_()
     ext = [g for g in FA.by_base_name.get(('qvector::QVectorBuilder', 'extend'), [])]
     if ext:
@@ -834,10 +849,28 @@ def rule_DAR(FA):
                 while recv[0] == 'call' and recv[1].split('::')[-1] in ('deref', 'as_slice', 'deref_mut') and recv[2]:
                     recv = strip_ref(recv[2][0])
                 wok = recv in ov_terms
+        if rterm is None:
+            # the decode may sit in a closure of the reader (`(p < 0).then(|| (-p - 1) as usize)`)
+            for cg in [c for g0 in (sel,) for c in FA.with_closures(g0)[1:]]:
+                CG = FA.fn(cg)
+                CG.dom()
+                for bi, b in enumerate(CG.blocks):
+                    if bi not in CG.reach:
+                        continue
+                    for s in b['s']:
+                        rv = s.get('rv')
+                        if rv and rv['k'] == 'cast' and rv['to'] == 'usize':
+                            tt = norm(CG.operand_term(rv['a']))
+                            if tt[0] == 'bin' and tt[1] == 'Sub' and tt[3] == ('const', 1) and tt[2][0] == 'un' and tt[2][1] == 'Neg':
+                                rterm = tt
         rok = rterm is not None
+        wform = v[0] == 'bin' and v[1] == 'Sub' and v[3][:1] == ('const',) and v[2][0] == 'un' and v[2][1] == 'Neg'
         if wok and rok:
             out.append(Inst('R-DAR', key, 'ok', line, 'writer stores -(len(overflow_positions)) - 1, reader decodes -(p) - 1', props,
                             sample={'writer': show(v), 'reader': show(rterm)}))
+        elif wok or not wform:
+            out.append(Inst('R-DAR', key, 'note', line,
+                            'sparse group pointer `%s`: %s; the encoding is not decided' % (show(v)[:100], 'the decode -(p) - 1 was not found in the reader' if wok else 'the writer\'s form is not -(x) - c'), props, nontrivial=False))
         else:
             out.append(Inst('R-DAR', key, 'violation', line,
                             'sparse group pointer is `%s`%s: it must be -(current length of overflow_positions) - 1, the index at which this group\'s positions are appended, and the reader must decode -(p) - 1' % (
@@ -925,6 +958,35 @@ def _counting_source(FA, F):
                             bad = _lossy_call(st[2][0])
                             if bad:
                                 return bad
+    return ''
+
+
+def _counting_step(FA, f, spec):
+    """The slot handed out by `map.entry(symbol).or_insert(0)` is incremented: a store of a constant into it (`= 1` for
+    `+= 1`) gives every symbol the same weight.  Returns a description of the contradiction, else ''."""
+    for g in FA.with_closures(f):
+        G = FA.fn(g, {k: v for k, v in (spec or {}).items() if k in FA.const_params(g)})
+        G.dom()
+        for bi, t in G.calls():
+            if t['f']['fn']['name'] not in ('or_insert', 'or_default', 'or_insert_with') or 'Entry' not in t['f']['fn']['path'] or t['dest']['proj']:
+                continue
+            slot = {t['dest']['l']}
+            for _ in range(3):   # plain copies / reborrows of the slot reference
+                for bj, b in enumerate(G.blocks):
+                    for s_ in b['s']:
+                        rv = s_['rv']
+                        if not s_['lhs']['proj'] and ((rv['k'] == 'use' and 'p' in rv['a'] and rv['a']['p']['l'] in slot and not rv['a']['p']['proj']) or
+                                                       (rv['k'] == 'ref' and rv['p']['l'] in slot)):
+                            slot.add(s_['lhs']['l'])
+            stores = []
+            for bj, b in enumerate(G.blocks):
+                if bj not in G.reach:
+                    continue
+                for s_ in b['s']:
+                    if s_['lhs']['l'] in slot and s_['lhs']['proj'] and s_['lhs']['proj'][0] in ('deref', '*'):
+                        stores.append((norm(G.rvalue_term(s_['rv'])), s_.get('line', '')))
+            if stores and all(v[:1] == ('const',) for v, _ in stores):
+                return 'the counter of a symbol is set to the constant %s at %s instead of being incremented: all symbols get the same weight' % (show(stores[0][0]), stores[0][1])
     return ''
 
 
@@ -1041,6 +1103,10 @@ def rule_LVL(FA):
                     if lossy:
                         good = False
                         freq_mut = freq_mut or ('the frequencies are counted over `%s`, which does not yield every element once' % lossy)
+                    step = _counting_step(FA, fi, spec)
+                    if step:
+                        good = False
+                        freq_mut = freq_mut or step
                     # the lengths map must not be touched between the coder and craft_wm_codes
                     lengths_local = t['args'][0]['p']['l'] if 'p' in t['args'][0] else None
                     mutated = _other_uses(F, lengths_local, bi)
@@ -1218,14 +1284,29 @@ def rule_DEL(FA):
                 and any(contains(a, params[0]) for a in ret[2])
             if not ok and 'build' in callees:
                 # builder shape: b = Builder::default(); b.extend(<whole input>); b.build() / b.into()
-                ext = [t for bi, t in F.calls() if t['f']['fn']['name'] == 'extend']
-                others = [t for bi, t in F.calls() if t['f']['fn']['name'] in ('push', 'truncate', 'pop', 'clear', 'take', 'skip', 'filter', 'step_by',
-                                                                                'extend_with_zeros', 'set', 'set_bits', 'append_bits', 'resize', 'insert')]
+                # (private helpers inlined: `collect_into_builder(iter).build()`)
+                Fb = FA.fn(FA.inlined(f))
+                Fb.dom()
+                calls_b = [(bi, t) for bi, t in Fb.calls() if bi in Fb.reach]
+                ext = [t for bi, t in calls_b if t['f']['fn']['name'] == 'extend']
+                others = [t for bi, t in calls_b if t['f']['fn']['name'] in ('push', 'truncate', 'pop', 'clear', 'take', 'skip', 'filter', 'step_by',
+                                                                              'extend_with_zeros', 'set', 'set_bits', 'append_bits', 'resize', 'insert')]
                 if len(ext) == 1 and not others:
-                    a1 = norm(F.operand_term(ext[0]['args'][1]))
+                    a1 = norm(Fb.operand_term(ext[0]['args'][1]))
                     if _pure_plumbing(a1, params) and contains(a1, params[0]) and any(
                             isinstance(x, tuple) and x and x[0] == 'call' and x[1].split('::')[-1] in ('default', 'new') for x in subterms(ret)):
                         ok = True
+            # a construction path that checks its positions pairwise (`windows(2).all(|w| ..)`) checks that they INCREASE:
+            # `<=` lets repeated positions through, and two different inputs then build equal values
+            if any(t['f']['fn']['name'] == 'windows' for bi, t in F.calls()):
+                for cg in FA.with_closures(f)[1:]:
+                    ct = norm(FA.fn(cg).local_term(0))
+                    if ct[:1] == ('cmp',) and all(isinstance(x, tuple) and x[:1] == ('index',) and x[2][:1] == ('const',) for x in ct[2:4]) and ct[2][1] == ct[3][1]:
+                        lo, hi = (ct[2], ct[3]) if ct[2][2][1] < ct[3][2][1] else (ct[3], ct[2])
+                        strict = ct[1] == '<' and ct[2] == lo
+                        out.append(Inst('R-DEL', key + '|increasing', 'ok' if strict else 'violation', cg['span'],
+                                        'consecutive positions are required to satisfy `w[0] < w[1]`' if strict else
+                                        'consecutive positions are only required to satisfy `%s`: repeated (or decreasing) positions are accepted, and a sequence with a repeated position builds the same value as the sequence without it' % show(ct), props))
             if ok:
                 out.append(Inst('R-DEL', key, 'ok', f['span'], 'returns %s' % show(ret)[:140], props, sample={'return': show(ret)[:200]}))
             else:
@@ -1319,6 +1400,38 @@ def _spc_accounted(FA, f):
                 if fs and any(isinstance(e, dict) and ('idx' in e or 'cidx' in e) for e in rv['p']['proj']):
                     out.add(fs[0])
     return out
+
+
+def _spc_unscaled_len(FA, fi, adt):
+    F = FA.fn(fi)
+    ret = norm(F.local_term(0))
+    seq = {}
+    for x in adt['fields']:
+        m = re.search(r'(?:Vec<|Box<\[)(.+?)(?:>|\]>)$', x['ty'])
+        if m and m.group(1) not in ('u8', 'i8', 'bool'):
+            seq[x['name']] = m.group(1)
+    hit = []
+
+    def walk(t, scaled):
+        if not isinstance(t, tuple) or not t:
+            return
+        if t[0] == 'call' and t[1].split('::')[-1] in ('len', 'capacity') and t[2]:
+            flds = [st[2] for st in subterms(t[2][0]) if isinstance(st, tuple) and st[:2] == ('field', SELF)]
+            if len(flds) == 1 and flds[0] in seq and not scaled and not any(isinstance(st, tuple) and st[:1] == ('index',) for st in subterms(t[2][0])):
+                hit.append((flds[0], t[1].split('::')[-1], seq[flds[0]]))
+            return
+        if t[0] == 'bin' and t[1] in ('Mul', 'Shl'):
+            for x in t[2:]:
+                walk(x, True)
+            return
+        if t[0] == 'bin' and t[1] == 'Add' or t[0] == 'cast':
+            for x in t[1:]:
+                walk(x, scaled)
+            return
+        # anything else (calls, comparisons, indices): the count is consumed by something that is not the byte total
+        return
+    walk(ret, False)
+    return hit[0] if hit else None
 
 
 def _spc_not_delegated(FA, fi, adt):
@@ -1478,6 +1591,21 @@ def rule_SPC(FA):
         acc = _spc_accounted(FA, fi)
         missing = [h for h in heap if (h not in got or h not in acc) and '*self' not in got and (base, h) not in SPC_EXCEPTIONS]
         key = 'R-SPC|%s' % base
+        # a fixed-size record that reports a constant: the constant is its size in memory (alignment padding included)
+        lay = (FA.layouts.get(base) or {}).get('layout') if hasattr(FA, 'layouts') else None
+        sm = summary(FA, f)
+        if lay and not heap and isinstance(sm, tuple) and sm[:1] == ('const',) and isinstance(sm[1], int):
+            if sm[1] != lay['size']:
+                out.append(Inst('R-SPC', key + '|size', 'violation', f['span'],
+                                'space_usage_byte() of %s is the constant %d but a value of the type occupies %d bytes (size_of, alignment %d)' % (base.split('::')[-1], sm[1], lay['size'], lay['align']), props))
+            else:
+                out.append(Inst('R-SPC', key + '|size', 'ok', f['span'], 'constant %d = size_of::<%s>()' % (sm[1], base.split('::')[-1]), props))
+        # an element COUNT added to a byte total: `self.f.len()` of a sequence whose elements are wider than a byte
+        unscaled = _spc_unscaled_len(FA, fi, adt)
+        if unscaled:
+            out.append(Inst('R-SPC', key + '|bytes', 'violation', f['span'],
+                            'space_usage_byte() of %s adds `self.%s.%s()` (a number of elements of type %s) to a total in bytes without multiplying by the element size' % (
+                                base.split('::')[-1], unscaled[0], unscaled[1], unscaled[2]), props))
         nodeleg = _spc_not_delegated(FA, fi, adt)
         if nodeleg and not missing:
             out.append(Inst('R-SPC', key, 'violation', f['span'],
@@ -1616,6 +1744,36 @@ def rule_NEG(FA):
                         out.append(Inst('R-NEG', key, 'ok', s['line'], 'complement of the stored word', props, sample={'operand': [show(t)[:100] for t in flat]}))
     if n == 0:
         out.append(Inst('R-NEG', 'R-NEG|anchors', 'violation', '', 'no word complement found in BIT = false specialisations (anchor lost)', ['C08', 'C07']))
+    # the two specialisations of a BIT-generic function differ only by that complement: the all-ones masks that cut the
+    # first / last word are shifted the same way for ones and for zeros
+    for f in FA.lib_fns(include_closures=False):
+        if 'BIT' not in FA.const_params(f):
+            continue
+        props = ['C08', 'C07'] if 'bitvector' in f['path'] else ['C07']
+        shapes = {}
+        for spec in FA.specs(f):
+            F = FA.fn(f, spec)
+            F.dom()
+            sh = []
+            for bi, b in enumerate(F.blocks):
+                if bi not in F.reach:
+                    continue
+                for s_ in b['s']:
+                    rv = s_.get('rv')
+                    if rv and rv['k'] == 'bin' and rv['op'].replace('Unchecked', '') in ('Shl', 'Shr'):
+                        a = strip_casts(norm(F.operand_term(rv['a'])))
+                        if a[:1] == ('const',) and isinstance(a[1], int) and a[1] in (0xFFFFFFFFFFFFFFFF, (1 << 128) - 1, 0xFFFFFFFF):
+                            sh.append((rv['op'].replace('Unchecked', ''), s_.get('line', '')))
+            shapes[bool(spec.get('BIT', False))] = sh
+        if len(shapes) == 2 and (shapes[True] or shapes[False]):
+            k1, k0 = sorted(x[0] for x in shapes[True]), sorted(x[0] for x in shapes[False])
+            key = 'R-NEG|%s|mask direction' % fn_key(f)
+            if k1 != k0 and len(k1) == len(k0):
+                line = next((l for (o, l), o0 in zip(sorted(shapes[True]), k0) if o != o0), f['span'])
+                out.append(Inst('R-NEG', key, 'violation', line,
+                                'the all-ones mask is shifted %s when looking for ones and %s when looking for zeros: the two specialisations must cut the same bits of the word' % ('/'.join(k1), '/'.join(k0)), props))
+            elif k1 == k0:
+                out.append(Inst('R-NEG', key, 'ok', f['span'], 'all-ones masks shifted alike in both specialisations (%s)' % '/'.join(k1), props))
     return out
 
 
@@ -1733,6 +1891,45 @@ def rule_ALL(FA):
 SIG_BASES = {'quadwt::QWaveletTree': ['C01', 'C14'], 'quadwt::huffqwt::HuffQWaveletTree': ['C02', 'C14'], 'binwt::WaveletTree': ['C03', 'C14']}
 
 
+LEVEL_WIDTH = {'quadwt::QWaveletTree': 2, 'binwt::WaveletTree': 1}
+
+
+def _level_formula(F, l, width, depth=0):
+    from .r_arith import _eval_affine, _decast
+    cands = []
+
+    def terms_of(loc, d=0):
+        ds = [x for x in F.defs.get(loc, []) if x[0] in F.reach]
+        for x in ds:
+            if x[1] == 'assign':
+                if x[2]['k'] in ('use', 'cast') and 'p' in x[2]['a'] and not x[2]['a']['p']['proj'] and d < 4 and len([y for y in F.defs.get(x[2]['a']['p']['l'], []) if y[0] in F.reach]) > 1:
+                    terms_of(x[2]['a']['p']['l'], d + 1)
+                else:
+                    cands.append((norm(F.rvalue_term(x[2])), x[2].get('line', '')))
+    terms_of(l)
+    for t, line in cands:
+        t = _decast(t)
+        msbs = [st for st in subterms(t) if isinstance(st, tuple) and st[:1] == ('call',) and st[1].split('::')[-1] == 'msb']
+        if len(set(msbs)) != 1 or has_unknown(t):
+            continue
+        bad = None
+        for m in range(0, 128):
+            v = _eval_affine(t, {msbs[0]: m})
+            if v is None:
+                bad = None
+                break
+            want = (m + 1 + width - 1) // width
+            if v != want:
+                bad = (m, v, want)
+                break
+        else:
+            return ('ok', line, 'number of levels `%s` = ceil((msb + 1) / %d) for every msb in 0..127' % (show(t)[:50], width))
+        if bad:
+            return ('violation', line, 'the number of levels `%s` is %d for a largest symbol of %d bits, where %d fragments of %d bit(s) cover it: %s' % (
+                show(t)[:60], bad[1], bad[0] + 1, bad[2], width, 'an extra all-zero level is stored (space)' if bad[1] > bad[2] else 'the top bits of the symbols are lost'))
+    return None
+
+
 def rule_SIG(FA):
     """The stored largest symbol (`sigma`: the bound of the symbol guard, `None for c > max(S)`) is the MAXIMUM of the
     input: the value the constructor stores in the field derives from `Iterator::max` over a plain element iterator of the
@@ -1775,6 +1972,12 @@ def rule_SIG(FA):
                                     if a2 != strip_casts(tm) and contains(a2, strip_casts(tm)) and a2[:1] in (('call',), ('bin',)):
                                         verdicts.append(('violation', d2[2].get('line', st['line']),
                                                          'the number of levels is computed from the bit length of `%s`, not of the stored largest symbol `%s`: an extra (or missing) level for alphabets whose largest symbol is 2^k - 1' % (show(a2)[:60], show(tm)[:40])))
+                    # ... and it is the smallest number of fragments that covers that bit length: ceil((msb + 1) / width),
+                    # evaluated on the constructor's own formula for every msb in 0..127
+                    if 'n_levels' in names and names.index('n_levels') < len(rv['ops']) and 'p' in rv['ops'][names.index('n_levels')] and base in LEVEL_WIDTH:
+                        v = _level_formula(F, rv['ops'][names.index('n_levels')]['p']['l'], LEVEL_WIDTH[base])
+                        if v:
+                            verdicts.append(v)
                     S = backward_slice(F, [o['p']['l']])
                     red = []
                     for l in S:
